@@ -295,6 +295,9 @@ def run_case(ctx, case):
             preds = node_preds(culprit)
             preds["false"] = name
             preds["complex"] = R.dense(culprit).dtype.kind == "c"
+            # (the complex-scalar sub-case of the recorded scalar-multiple finding was repaired in /repo (4a5b5ff): a complex
+            # scalar must no longer leave SelfAdjoint / PSD on the multiple; the recorded finding only covers the rest)
+            preds["repaired_subcase"] = bool(preds.get("scalar") == "complex" and name in ("SelfAdjoint", "PSD"))
             ctx.check("annotation-true", False, site=culprit["k"], preds=preds,
                       detail={"blamed": culprit if R.depth(culprit) <= 1 else R.signature(culprit), "reported": sorted(rep),
                               "true": sorted(tr)})
@@ -355,22 +358,23 @@ def quiescent(ctx, origin, suppress=False):
         square = op.shape[0] == op.shape[1]
         preds = {"false": ",".join(bad), "square": square, "origin": origin}
         preds["scalar_factor"] = _has_scaled_product(op)
+        preds["repaired_subcase"] = bool(_has_scaled_product(op, complex_only=True) and any(x in ("SelfAdjoint", "PSD") for x in bad))
         ctx.check("created-operator-annotation-true", not bad, site=type(op).__name__.split("[")[0], preds=preds,
                   detail={"type": type(op).__name__, "shape": list(op.shape), "reported": sorted(rep), "true": sorted(tr)})
     TAP.created.clear()
 
 
-def _has_scaled_product(op, depth=0):
+def _has_scaled_product(op, depth=0, complex_only=False):
     """Does the operator contain (within 4 levels) a Product with a ScalarMul factor?  (open finding: such products
-    inherit the other factor's annotations whatever the scalar)"""
-    if isinstance(op, ops.Product) and any(isinstance(M, ops.ScalarMul) for M in op.Ms):
+    inherit the other factor's annotations whatever the scalar).  complex_only: ... whose scalar has a non-zero imaginary part."""
+    if isinstance(op, ops.Product) and any(isinstance(M, ops.ScalarMul) and (not complex_only or abs(complex(np.asarray(M.c)).imag) > 0) for M in op.Ms):
         return True
     if depth > 4:
         return False
     kids = list(getattr(op, "Ms", ()) or ())
     if isinstance(getattr(op, "A", None), ops.LinearOperator):
         kids.append(op.A)
-    return any(isinstance(M, ops.LinearOperator) and _has_scaled_product(M, depth + 1) for M in kids)
+    return any(isinstance(M, ops.LinearOperator) and _has_scaled_product(M, depth + 1, complex_only) for M in kids)
 
 
 def _iterative(op, depth=0):
